@@ -213,6 +213,15 @@ func c07(p *Prog, r *Report) {
 	r.Check(len(bad) == 0 && nS > 0, R3, shortName(fn)+" => originIndexKeys[unpad(inner.paddedOrigin)] ok", p.Pos(fn.Pos()),
 		fmt.Sprintf("%d success return(s) dominated by ok=true of %s", nS, clip(lookupPat, 200)), strings.Join(bad, " | "))
 
+	// R3b: the name looked up is the name the client padded - an unpadding that
+	// cuts at anything but the trailing zeros maps an unregistered name onto a
+	// registered one (the rule of C20, evaluated on the issuer side)
+	const R3b = "C07.origin-name-recovered-exactly"
+	r.Rule(R3b, "unpadOriginName strips exactly the trailing zero bytes (backward scan / TrimRight), so the origin looked up is the origin named by the request - shared with C20", 1)
+	if unpad := anchor(p, r, R3b, "~/tokens/type3.unpadOriginName"); unpad != nil {
+		c20Unpad(p, r, R3b, unpad)
+	}
+
 	// R4
 	curve := "param:0.curve"
 	sigReq := reqSignature("ecdsa.Verify(request key, SHA-384(request contents), r, s)=true", curve, reqObj)
